@@ -1,7 +1,7 @@
 SPECIFICATION TSpec
 CONSTANTS
   Ids = {1, 2, 3, 4}
-  Cfgs = {"c1", "c2", "c3", "c4", "r1", "r2", "r3", "r4"}
+  Cfgs = {"c1", "c2", "c3", "c4", "c5", "c6", "r1", "r2", "r3", "r4"}
   OwnScaleCfgs = {"c3"}
   ShareDefaultScale = FALSE
   MaxLen = 64
